@@ -301,7 +301,7 @@ pub async fn run_scenario(world: &mut World, req: &str, case: usize, out: &mut V
         }
         // probes wait for a moment at which a bootstrap exchange is pending
         ck.maybe_probe(world, &mut sim, &evs);
-        out.push((op, res));
+        out.push((format!("{op}{}", world.hints()), res));
     }
     ck.finish(world, case, out.len(), st, &sim);
 }
